@@ -50,38 +50,43 @@ Proof. exact rowwise_chunk_inv. Qed.
 Print Assumptions C06_rowwise_chunk_invariant.
 
 (* ---- dedup: every option combination, any hash function ---- *)
+(* [dedup_cmd] is the code: the per-field hashes are combined in order,
+   hash = (hash ^ h) * 1099511628211 mod 2^64 *)
 Theorem C06_dedup_chunk_invariant : forall (H : value -> N) (o : dedup_opts) bs,
   run (dedup_cmd H o) bs = run (dedup_cmd H o) [concat bs].
 Proof. exact dedup_chunk_inv. Qed.
 Print Assumptions C06_dedup_chunk_invariant.
 
-(* Full statement (FALSE for the code, see C06_dedup_xor_key_refuted):
-     forall H limit fields bs, 0 < limit ->
-       run (dedup_cmd H (plain_dedup limit fields)) bs = dedup_spec limit fields (concat bs)
-   i.e. "the first `limit` rows of each distinct combination of field values, order kept".
-   Proved under the exact guard: the XOR of the per-field hashes separates the value
-   combinations that occur in the input. *)
+(* "the first `limit` rows of each distinct combination of field values, order kept".
+   The remaining guard is the absence of a collision of the 64-bit key among the value
+   combinations that occur in the input (no structural collisions any more, see below). *)
 Theorem C06_dedup_meets_spec_guarded : forall (H : value -> N) limit fields bs,
   0 < limit ->
-  keys_injective H (nonnull_tuples fields (concat bs)) = true ->
+  keys_injective fnv_step H (nonnull_tuples fields (concat bs)) = true ->
   run (dedup_cmd H (plain_dedup limit fields)) bs = dedup_spec limit fields (concat bs).
 Proof. exact dedup_spec_guarded. Qed.
 Print Assumptions C06_dedup_meets_spec_guarded.
 
-(* the guard is satisfiable (and the theorem not vacuous): hash = value length + first byte *)
-Example C06_dedup_guard_satisfiable :
-  let H := fun v => match v with VStr (c :: _) => c | _ => 0 end in
-  let rows := [ [(fa, vx); (fb, vx)]; [(fa, vx); (fb, vy)]; [(fa, vx); (fb, vx)] ] in
-  keys_injective H (nonnull_tuples [fa; fb] rows) = true
-  /\ run (dedup_cmd H (plain_dedup 1 [fa; fb])) [rows] = firstn 2 rows.
-Proof. split; vm_compute; reflexivity. Qed.
+(* the guard holds and the spec is met on the rows (x,y),(y,x),(x,y) that the XOR key confused *)
+Theorem C06_dedup_swapped_values_told_apart :
+  keys_injective fnv_step first_byte_hash (nonnull_tuples [fa; fb] xy_rows) = true
+  /\ run (dedup_cmd first_byte_hash (plain_dedup 1 [fa; fb])) [xy_rows] = firstn 2 xy_rows
+  /\ run (dedup_cmd first_byte_hash (plain_dedup 1 [fa; fb])) [xy_rows] = dedup_spec 1 [fa; fb] xy_rows.
+Proof. exact dedup_xy_fixed. Qed.
+Print Assumptions C06_dedup_swapped_values_told_apart.
 
-(* for EVERY hash function the XOR key identifies (x,y) with (y,x):
-   rows (x,y),(y,x),(x,y) under `dedup a b` give one row, the spec gives two *)
-Theorem C06_dedup_xor_key_refuted : forall H : value -> N, exists fields rows,
-  run (dedup_cmd H (plain_dedup 1 fields)) [rows] <> dedup_spec 1 fields rows.
+(* ---- documentation: the code BEFORE the fix ([dedup_cmd_xor]: hash ^= value.Hash()) ---- *)
+Theorem C06_dedup_prefix_xor_chunk_invariant : forall (H : value -> N) (o : dedup_opts) bs,
+  run (dedup_cmd_xor H o) bs = run (dedup_cmd_xor H o) [concat bs].
+Proof. exact dedup_xor_chunk_inv. Qed.
+Print Assumptions C06_dedup_prefix_xor_chunk_invariant.
+
+(* for EVERY hash function the XOR key identified (x,y) with (y,x):
+   rows (x,y),(y,x),(x,y) under `dedup a b` gave one row, the spec gives two *)
+Theorem C06_dedup_prefix_xor_key_refuted : forall H : value -> N, exists fields rows,
+  run (dedup_cmd_xor H (plain_dedup 1 fields)) [rows] <> dedup_spec 1 fields rows.
 Proof. exact dedup_xor_refuted. Qed.
-Print Assumptions C06_dedup_xor_key_refuted.
+Print Assumptions C06_dedup_prefix_xor_key_refuted.
 
 (* ---- top / rare, stats ---- *)
 Theorem C06_toprare_chunk_invariant : forall is_top limit fields countf bs,
@@ -233,10 +238,12 @@ Print Assumptions C06_fetch_loop_two_pass.
 (* CanParallelSearch over the flags the New*DP constructors declare: the chain is split only
    in front of an order-insensitive aggregation (stats sort top rare timechart) and only over
    row-wise commands; never over head/dedup/streamstats/tail, a generator, or a two-pass
-   command *)
+   command; and not at all when a two-pass command follows the aggregation (it would rewind the
+   merged chains, which cannot replay results the merger has consumed) *)
 Theorem C06_planner_splits_only_rowwise_before_aggregation : forall ks i,
   can_parallel (map flags_of ks) = (true, i) ->
-  nth_error ks i = Some KAgg /\ Forall (fun k => k = KRowwise) (firstn i ks).
+  nth_error ks i = Some KAgg /\ Forall (fun k => k = KRowwise) (firstn i ks)
+  /\ Forall (fun k => k <> KTwoPass) (skipn (S i) ks).
 Proof. exact planner_sound. Qed.
 Print Assumptions C06_planner_splits_only_rowwise_before_aggregation.
 
